@@ -74,7 +74,7 @@ def returns_true_for(ctx, m, op):
     return out
 
 
-@rule('C11.a', ['C11'], floor=8)
+@rule('C11.a', ['C11', 'C10'], floor=8)
 def in_memory_bodies_are_tagged(ctx):
     """Sibling cross-check over the UploadInputManager hierarchy: if the body factory of
     a manager for put_object / upload_part (resolved through its MRO) builds an in-memory
@@ -146,7 +146,7 @@ def in_memory_bodies_are_tagged(ctx):
             ctx.ob(f, f'{fname} takes its bodies from {fac}', uses, 'body factory and tag operation must correspond')
 
 
-@rule('C11.b', ['C11'], floor=4)
+@rule('C11.b', ['C11', 'C10'], floor=4)
 def streaming_downloads_are_tagged(ctx):
     """Every output manager whose write path goes through a DeferQueue returns
     IN_MEMORY_DOWNLOAD_TAG from get_download_task_tag; both GetObjectTask submissions
@@ -239,3 +239,32 @@ def countdown_reads_ask_for_what_remains(ctx):
                     ok = bool(rd.args) and rem in q.names_in(rd.args[0])
                     ctx.ob(f, rd, ok, f'the loop counts {rem} down by len({chunk}) but reads {norm(rd.args[0]) if rd.args else "everything"}: after a short read it takes more than was asked for')
     ctx.ob('<package>', 'count-down read loops ask for the remaining amount', True, f'{n} such loops', trivial=True)
+
+
+@rule('C11.g', ['C11'], floor=2)
+def legacy_io_queue_is_bounded(ctx):
+    """The legacy ranged downloader hands chunks to its single IO thread through
+    ShutdownQueue(config.max_io_queue); the subclass forwards the size to queue.Queue
+    (through the _init hook, or through __init__ if it defines one), so put() blocks the
+    fetchers when max_io_queue chunks are pending."""
+    cl = ctx.cls('__init__.ShutdownQueue')
+    init = cl.methods.get('__init__')
+    hook = cl.methods.get('_init')
+    ok = True
+    if init is not None:
+        p_ = init.params[1] if len(init.params) > 1 else None
+        sup = [c for c in own_calls(init.node) if norm(c.func) in ('super().__init__', 'queue.Queue.__init__', 'Queue.__init__')]
+        ok = p_ is not None and len(sup) == 1 and any(norm(a) == p_ for a in list(sup[0].args) + [k.value for k in sup[0].keywords])
+        ctx.ob(init, 'ShutdownQueue.__init__ forwards maxsize to queue.Queue', ok, 'the queue is created unbounded: put() never blocks and every fetched chunk is kept in memory')
+    if hook is not None:
+        p_ = hook.params[1] if len(hook.params) > 1 else None
+        sup = [c for c in own_calls(hook.node) if norm(c.func) in ('queue.Queue._init', 'super()._init', 'Queue._init')]
+        okh = p_ is not None and len(sup) == 1 and any(norm(a) == p_ for a in sup[0].args)
+        ctx.ob(hook, 'ShutdownQueue._init forwards maxsize to queue.Queue._init', okh, 'the underlying deque / size is not initialised with the bound')
+    if init is None and hook is None:
+        ctx.ob(cl.qualname, 'ShutdownQueue inherits the constructor of queue.Queue', True, '', trivial=True)
+    d = ctx.func('__init__.MultipartDownloader.__init__')
+    mk = [c for c in own_calls(d.node) if norm(c.func) == 'ShutdownQueue']
+    a0 = q.argn(mk[0], 'maxsize', 0) if len(mk) == 1 else None
+    ctx.ob(d, 'self._ioqueue = ShutdownQueue(config.max_io_queue)', a0 is not None and q.self_alias_text(d, a0) == 'self._config.max_io_queue',
+           f'the IO queue must be bounded by max_io_queue, found {norm(a0) if a0 is not None else None}')
